@@ -761,6 +761,10 @@ func getLatestRefTipsFromRSLEntries(entries []rsl.Entry) map[string]githash.Hash
 			if _, has := refTips[entry.GetRefName()]; has {
 				continue
 			}
+
+			// A propagation entry records a new state of the reference just
+			// like a reference entry does (it cannot be skipped)
+			refTips[entry.GetRefName()] = entry.GetTargetID()
 		case *rsl.AnnotationEntry:
 			for _, referencedEntryID := range entry.RSLEntryIDs {
 				if _, has := annotationsMap[referencedEntryID.String()]; !has {
